@@ -33,13 +33,21 @@ EvHp == /\ Ev("hp")
                                      /\ "slice" \in DOMAIN E.rforms /\ "slice" \in DOMAIN E.fforms, <<l, "hp-forms", r, Fnv32Low6(f1)>>)
                            /\ l' = l + 1 /\ j' = 0 /\ win' = WinInit /\ f32' = Fnv32Init
                       ELSE l' = l /\ j' = j + 1 /\ win' = w1 /\ f32' = f1
+(* one slice of more than 2^32 bytes, all zero except the last seven: the value is that of the
+   window holding those seven bytes *)
+RECURSIVE PushAll(_, _, _)
+PushAll(w, s, i) == IF i > Len(s) THEN w ELSE PushAll(WinPush(w, s[i]), s, i + 1)
+EvHpBig == /\ Ev("hpbig")
+           /\ Expect(E.panics = 0 /\ Len(E.tail) = 7 /\ AllEq(E.rforms, RollDef(PushAll(WinInit, E.tail, 1)))
+                     /\ "slice" \in DOMAIN E.rforms, <<l, "hpbig">>)
+           /\ l' = l + 1 /\ UNCHANGED <<j, win, f32>>
 EvFnvRow == /\ Ev("fnvrow")
             /\ Expect(E.s \in 0..63 /\ Len(E.row) = 256 /\ \A c \in 0..255 : E.row[c + 1] = Fnv6Step(E.s, c), <<l, "fnvrow", E.s>>)
             /\ l' = l + 1 /\ UNCHANGED <<j, win, f32>>
 EvFnvInit == /\ Ev("fnvinit")
              /\ Expect(E.v = Fnv6Init /\ E.states = 64, <<l, "fnvinit">>)
              /\ l' = l + 1 /\ UNCHANGED <<j, win, f32>>
-Next == EvHp \/ EvFnvRow \/ EvFnvInit
+Next == EvHp \/ EvHpBig \/ EvFnvRow \/ EvFnvInit
 Spec == Init /\ [][Next]_vars
 Progress == Mark(l)
 =============================================================================
